@@ -582,7 +582,83 @@ func ruleR25_4(c *Check) {
 	}
 }
 
+func ruleR25_5(c *Check) {
+	w := c.W
+	r := c.Rule("R25.5", "E1", 3, "DB.Ranges, merging fine-grained ranges into bins: a range that has been absorbed into the current bin (bin.right = range.right) is never looked at again — on every path from the absorption the index is advanced before the loop is left or the next bin starts; every bin starts at the first range not yet absorbed and the first range of a bin is consumed (index advanced) before the absorbing loop",
+		"a range absorbed into one bin and used again as the start of the next makes two producers scan the same keys: every key in the overlap is delivered twice")
+	f := w.F("badger.DB.Ranges")
+	right := w.Field("badger.keyRange.right")
+	g := f.G()
+	n := 0
+	var k keyer
+	f.walk(func(x ast.Node) bool {
+		fs, ok := x.(*ast.ForStmt)
+		if !ok || fs.Post == nil {
+			return true
+		}
+		inc, ok := fs.Post.(*ast.IncDecStmt)
+		if !ok || inc.Tok != token.INC {
+			return true
+		}
+		// absorption: a store X.right = Y.right in the body
+		var absorb []ast.Node
+		ast.Inspect(fs.Body, func(m ast.Node) bool {
+			if as, ok := m.(*ast.AssignStmt); ok && len(as.Lhs) == 1 && len(as.Rhs) == 1 && w.fieldOf(as.Lhs[0]) == right && w.fieldOf(as.Rhs[0]) == right {
+				absorb = append(absorb, as)
+			}
+			return true
+		})
+		if len(absorb) == 0 {
+			return true
+		}
+		n++
+		post := g.VertexOf(fs.Post)
+		var breaks []int
+		ast.Inspect(fs.Body, func(m ast.Node) bool {
+			if b, ok := m.(*ast.BranchStmt); ok && b.Tok == token.BREAK {
+				if v := g.VertexOf(b); v >= 0 {
+					breaks = append(breaks, v)
+				}
+			}
+			return true
+		})
+		// exits of the loop other than through the post statement: the nodes following the loop
+		for _, a := range absorb {
+			av := g.VertexOf(a)
+			if av < 0 || post < 0 {
+				r.Check(false, f, k.key("absorption and index advance located", w, a), a, "cannot place the absorption or the loop's post statement in the control-flow graph")
+				continue
+			}
+			// leaving the loop without passing its post statement = leaving through a break
+			// (break statements are edges, not vertices, of the graph: the goal is any vertex outside the loop)
+			_ = breaks
+			outside := func(v int) bool {
+				nd := g.V[v].N
+				return nd != nil && (nd.Pos() < fs.Pos() || nd.Pos() >= fs.End())
+			}
+			bad := g.pathAvoiding([]int{av}, outside, map[int]bool{post: true}, false) != nil
+			r.Check(!bad, f, k.key("an absorbed range is stepped over before the bin is closed", w, a), a, "after `bin.right = range.right` the loop can be left without advancing the index: the same range also starts the next bin")
+		}
+		// the first range of the bin is consumed before this loop: an increment of the same index precedes the loop
+		idx, _ := inc.X.(*ast.Ident)
+		if idx != nil {
+			incs := selPred("i++", func(w *World, fn *Fn, m ast.Node) bool {
+				s, ok := m.(*ast.IncDecStmt)
+				if !ok || s.Tok != token.INC || s == inc {
+					return false
+				}
+				id, ok := s.X.(*ast.Ident)
+				return ok && w.Use(id) == w.Use(idx)
+			})
+			r.DomAll(f, "the bin's first range is consumed before further ranges are absorbed", selNode(absorb...), 0, incs, 0)
+		}
+		return true
+	})
+	r.Exists(n == 1, f, "bin-building loop", nil, "no loop in DB.Ranges that absorbs ranges into a bin")
+}
+
 func propC25(c *Check) {
+	ruleR25_5(c)
 	ruleR25_1(c)
 	ruleR25_2(c)
 	ruleR25_3(c)
